@@ -178,7 +178,7 @@ theorem name_roundtrip_builtin (fmt dfmt : Format) (name t : Name)
     (A) `s` itself ends in a built-in suffix with something in front or with a ".tar" replacement (finding F3), or
     (B) `s` is a proper tail of a built-in suffix and `name` supplies the front part (the documented exception). -/
 theorem shadow_characterised (dfmt : Format) (name s : Name)
-    (hname : GoodBase name) (hs : s ≠ []) (hslash : slash ∉ s) :
+    (hname : GoodBase name) (hslash : slash ∉ s) :
     BuiltinShadows dfmt name (name ++ s) ↔
       dfmt ≠ .raw ∧ (SuffixEndsInBuiltin s ∨ BuiltinSpansName name s) := by
   unfold BuiltinShadows
@@ -474,7 +474,7 @@ theorem src_refusal_kinds (s : Src) (f : Flags) :
   obtain ⟨kind, sy, su, sg, st, n⟩ := s
   unfold srcDecision
   by_cases hn : n > 1 <;> simp only [hn, decide_true, decide_false] <;>
-    (revert kind sy su sg st c fo k; decide)
+    cases kind <;> cases sy <;> cases su <;> cases sg <;> cases st <;> cases c <;> cases fo <;> cases k <;> decide
 
 /-- **mode_never_broader.** For every source mode 0..07777: the mode given to the target is a subset of the source's
     permission bits, never carries setuid/setgid/sticky; when the group can be set it is exactly the permission bits;
@@ -543,28 +543,16 @@ theorem exit_status_lattice (events : List Status) (noWarn : Bool)
 theorem keep_never_unlinks (c : FileCase) :
     ((c.flags.keep = true ∨ c.flags.stdout = true) → (runFile c).srcRemoved = false) ∧
     ((runFile c).srcRemoved = true → ∃ t m, (runFile c).action = .done t m) := by
-  unfold runFile
-  constructor
-  · intro hk
-    have : (normFlags c.flags).keep = true := by
-      unfold normFlags; rcases hk with h | h <;> simp [h]
-    split
-    · rfl
-    · split <;> try rfl
-      split
-      · rfl
-      · split
-        · rfl
-        · split <;> simp_all
-  · intro h
-    split at h
-    · cases h
-    · split at h <;> try cases h
-      split at h
-      · cases h
-      · split at h
-        · cases h
-        · split at h <;> first | cases h | exact ⟨_, _, rfl⟩
+  have hk : (c.flags.keep = true ∨ c.flags.stdout = true) → (normFlags c.flags).keep = true := by
+    intro hk; unfold normFlags; rcases hk with h | h <;> simp [h]
+  by_cases he : c.name.isEmpty = true
+  · simp [runFile, he]
+  · by_cases hst : (normFlags c.flags).stdout = true
+    · cases hs : srcDecision c.src (normFlags c.flags) <;> simp [runFile, he, hs, hst]
+    · cases hs : srcDecision c.src (normFlags c.flags) <;>
+      cases hn : destName c.mode c.fmt c.custom c.name <;>
+      cases hd : destDecision c.dest (normFlags c.flags) <;>
+      simp [runFile, he, hs, hst, hn, hd] <;> exact fun h => hk h
 
 /-- **overwrite_needs_force / never_from_nonregular.** A target file is written only if the source is a regular file that
     passed the refusal rules, the name mapping produced a name, and either nothing existed at that name or `--force`
@@ -574,46 +562,40 @@ theorem done_requires (c : FileCase) (t : Name) (m : Nat) (h : (runFile c).actio
     destName c.mode c.fmt c.custom c.name = some t ∧
     (c.dest = .none ∨ c.flags.force = true) ∧ c.dest ≠ .dir ∧
     m = destMode c.srcMode c.groupFail := by
-  unfold runFile at h
-  split at h
-  · cases h
-  · rename_i hne
-    split at h <;> try cases h
-    rename_i hsrc
-    have hacc := (src_refusal_exact _ _).mp hsrc
-    split at h
-    · cases h
-    · rename_i hst
-      split at h
-      · cases h
-      · rename_i t' ht
-        split at h
-        · rename_i hd
-          simp only [Action.done.injEq] at h
-          obtain ⟨rfl, rfl⟩ := h
-          have hstd : c.flags.stdout = false := by
-            simpa [normFlags] using hst
-          have hreg : c.src.kind = .reg := by
-            rcases hacc.2.2.2.1 with h | h
-            · exact h
-            · simp [hst] at h
-          refine ⟨by simpa using hne, hreg, hacc, hstd, ht, ?_, ?_, rfl⟩
-          · unfold destDecision at hd
-            simp only [hst, Bool.false_eq_true, if_false] at hd
-            by_cases hf : (normFlags c.flags).force = true
-            · right; simpa [normFlags] using hf
-            · left
-              simp only [hf, if_false] at hd
-              by_cases hn : c.dest = .none
-              · exact hn
-              · simp [hn] at hd
-          · unfold destDecision at hd
-            simp only [hst, Bool.false_eq_true, if_false] at hd
-            intro hdir
-            by_cases hf : (normFlags c.flags).force = true
-            · simp [hf, hdir] at hd
-            · simp [hf, hdir] at hd
-        · cases h
+  by_cases he : c.name.isEmpty = true
+  · simp [runFile, he] at h
+  · by_cases hst : (normFlags c.flags).stdout = true
+    · cases hs : srcDecision c.src (normFlags c.flags) <;> simp [runFile, he, hs, hst] at h
+    · cases hs : srcDecision c.src (normFlags c.flags) <;>
+      cases hn : destName c.mode c.fmt c.custom c.name <;>
+      cases hd : destDecision c.dest (normFlags c.flags) <;>
+      simp [runFile, he, hs, hst, hn, hd] at h
+      -- only  ok / some t' / create  remains
+      rename_i t'
+      obtain ⟨rfl, rfl⟩ := h
+      have hacc := (src_refusal_exact _ _).mp hs
+      have hstd : c.flags.stdout = false := by simpa [normFlags] using hst
+      have hreg : c.src.kind = .reg := by
+        rcases hacc.2.2.2.1 with h | h
+        · exact h
+        · exact absurd h hst
+      have hne : c.name ≠ [] := by simpa using he
+      refine ⟨hne, hreg, hacc, hstd, rfl, ?_, ?_, rfl⟩
+      · unfold destDecision at hd
+        rw [if_neg hst] at hd
+        by_cases hf : (normFlags c.flags).force = true
+        · right; simpa [normFlags] using hf
+        · left
+          rw [if_neg hf] at hd
+          by_cases hnn : c.dest = .none
+          · exact hnn
+          · rw [if_neg hnn] at hd; cases hd
+      · unfold destDecision at hd
+        rw [if_neg hst] at hd
+        intro hdir
+        by_cases hf : (normFlags c.flags).force = true
+        · rw [if_pos hf, if_pos hdir] at hd; cases hd
+        · rw [if_neg hf, hdir] at hd; simp at hd
 
 /-- A skipped file (any warning or error before the target is opened) leaves source and target untouched:
     no removal, and the only outcome that creates or replaces something is `done`. -/
